@@ -131,10 +131,10 @@ def materialise(ds):
     return before, rows, after
 
 
-def run_steps(steps, descriptor, tables):
+def run_steps(steps, descriptor, tables, sequential=False):
     """Run fresh step objects on a fed package; returns (descriptor, tables)."""
     with quiet():
-        ds = Flow(*steps).datastream(feed(descriptor, tables))
+        ds = Flow(*steps).datastream(feed(descriptor, tables, sequential=sequential))
         before, rows, _after = materialise(ds)
     return before, rows
 
